@@ -15,7 +15,8 @@ import (
 	"github.com/failsafe-go/failsafe-go/timeout"
 )
 
-// Error trees of the line protocol:  L<id>:<ty>  W<id>:<ty>(<tree>)  J<id>:<ty>(<tree>,<tree>)  X(<val>,<tree>|-)
+// Error trees of the line protocol:  L<id>:<ty>  W<id>:<ty>(<tree>)  J<id>:<ty>(<tree>,<tree>)  N<id>:<ty>(<tree>)  X(<val>,<tree>|-)
+// (N: a custom aggregate whose Unwrap() []error is [nil, <tree>]; the model reads it as a wrapper of <tree>)
 // Identities 1..6 are user errors whose dynamic type is fixed by the id; 100.. are the library's sentinels.
 
 type ValErr struct{ ID int }
@@ -134,6 +135,22 @@ func (p *treeParser) tree() error {
 		m := &MultiErr{ID: id, Errs: []error{a, b}}
 		multiByID[id] = m
 		return m
+	case 'N':
+		// a custom aggregate error whose Unwrap() []error is [nil, child]
+		p.i++
+		id := p.num()
+		p.expect(':')
+		p.num()
+		p.expect('(')
+		c := p.tree()
+		p.expect(')')
+		if old, ok := multiByID[id]; ok {
+			old.Errs = []error{nil, c}
+			return old
+		}
+		m := &MultiErr{ID: id, Errs: []error{nil, c}}
+		multiByID[id] = m
+		return m
 	case 'X':
 		p.i++
 		p.expect('(')
@@ -179,6 +196,9 @@ func errTreeStr(err error) string {
 	case *WrapErr:
 		return fmt.Sprintf("W%d:%d(%s)", x.ID, tyWrapC, errTreeStr(x.Inner))
 	case *MultiErr:
+		if x.Errs[0] == nil {
+			return fmt.Sprintf("N%d:%d(%s)", x.ID, tyMultiC, errTreeStr(x.Errs[1]))
+		}
 		return fmt.Sprintf("J%d:%d(%s,%s)", x.ID, tyMultiC, errTreeStr(x.Errs[0]), errTreeStr(x.Errs[1]))
 	case ValErr:
 		return fmt.Sprintf("L%d:%d", x.ID, tyVal)
@@ -294,6 +314,13 @@ func applyConds(text string, onErrs func(...error), onTypes func(...any), onRes 
 	for _, p := range strings.Split(text, ",") {
 		n, _ := strconv.Atoi(p[1:])
 		switch p[0] {
+		case 'E':
+			// the error-list call with an empty list (a retryable-errors list from configuration that happens to be empty)
+			flush()
+			onErrs()
+		case 'Y':
+			flush()
+			onTypes()
 		case 'I':
 			if len(types) > 0 {
 				flush()
